@@ -35,6 +35,10 @@ PROPS = {
                 "join/bind pattern (select one of several targets by the driver's input, always or only when new), add + remove by position, "
                 "duplicate dependencies on one child, make_stale, dependencies added from outside while observed, observer churn; "
                 "non-trivial = distinct history in which an expert node was recomputed"),
+    "C03": spec(["IncrVerif.Props.C03"], [("bind", 0.7), ("general", 0.3)], ["api", "ev", "read", "snap"],
+                GEN + "both build profiles; generations are reconstructed from the trace (closure runs in order, consecutive node indices); "
+                "non-trivial = distinct history in which a bind closure ran at least twice",
+                builds=("debug", "release"), nq=200),
     "C04": spec(["IncrVerif.Props.C04"], [("general", 0.3), ("bind", 0.3), ("expert", 0.2), ("subs", 0.1), ("varw", 0.1)],
                 ["api"], GEN + "both build profiles (debug assertions on and off); non-trivial = distinct history in which node functions ran",
                 builds=("debug", "release"), nq=200),
@@ -52,6 +56,17 @@ PROPS = {
                 GEN + "the model's full snapshot (heights, timestamps, validity, necessity, ordered parent lists with child indices, children, "
                 "handler counts, heap buckets in order, counters) is compared with verif_snapshot() after EVERY action, and verif_audit() "
                 "(index arrays position by position, heap markers, handler counts) must be silent; non-trivial = distinct history in which node functions ran"),
+    "C15": spec(["IncrVerif.Props.C15"], [("maps", 1.0)], ["api", "ev", "read", "snap"],
+                "profile maps: incr_filter_mapi / incr_unordered_fold (plain and with update, with and without revert-to-init) / incr_merge / "
+                "incr_partition_mapi on BTreeMap, Rc<BTreeMap> and OrdMap inputs (each operator on the map types it is defined for) through the real "
+                "engine: two map-valued vars, 1-3 operator instances, 4-14 edits per history (insert / delete / change / empty / refill / equal map "
+                "written again), observe / unobserve / re-observe of the outputs; non-trivial = distinct history in which an operator's user function was called",
+                nq=200, nt=8000),
+    "C17": spec(["IncrVerif.Props.C17"], [("maps", 0.7), ("perkey", 0.3)], ["api", "ev"],
+                "profiles maps and perkey: every call of a user function (with key, arguments, role and result) is logged on both sides and compared as a "
+                "sequence; holds_C17 checks the calls against the keys that differ between the input the operator last ran on and the current one; "
+                "non-trivial = distinct history in which an operator's user function was called",
+                nq=200, nt=8000),
     "C19": spec(["IncrVerif.Props.C19"], [("limits", 1.0)], ["api", "read", "heap", "stats"],
                 "profile limits: limit N in 1..12, map chains of top height N-1..N+1 (fan-in 1-2), binds over chains, growing and shrinking "
                 "reconfigurations at quiescent points (also below the greatest height used), and the misuse stream: cycles closed through one "
